@@ -28,6 +28,11 @@ type sField struct {
 	Sym  string // symbol name when it differs from the storage key (AddSymbolWithKey); "" = same
 	Req  bool   // written with PersistContext.SetRequiredString (an empty value is a validation error); not part of the
 	// schema text: histories name the required fields on the operations that are subject to them (op prefix G)
+	// how the entity strategy persists the field (store_c04_api.go; not part of the schema text: the model works on
+	// storage keys, the harness translates the checker of an update when it builds the real FieldChecker)
+	Api    string // name under which the FieldChecker of an update knows the field ("" = the storage key): mapped with PersistContext.WithFieldOverrides
+	Ask    bool   // with Api: the strategy asks ProceedWithSet(Api) itself and then writes the storage key unconditionally
+	Always bool   // written whatever the checker says (the model counts it as selected by every checker)
 }
 
 func (f sField) symName() string {
@@ -233,6 +238,7 @@ func (st *gStrategy) PersistEntity(e *gEnt, ctx *boltz.PersistContext) {
 	} else {
 		e.SetBaseValues(ctx)
 	}
+	c04ApplyOverrides(st.def, ctx) // Api attributes; no-op for stores without them
 	for _, f := range st.def.Fields {
 		v := e.F[f.Name]
 		if f.Req {
@@ -241,6 +247,8 @@ func (st *gStrategy) PersistEntity(e *gEnt, ctx *boltz.PersistContext) {
 			} else {
 				ctx.SetRequiredString(f.Name, *v)
 			}
+		} else if f.Api != "" || f.Always {
+			c04PersistAttr(ctx, f, v)
 		} else if f.Ptr {
 			ctx.SetStringP(f.Name, v)
 		} else if v == nil {
@@ -623,8 +631,9 @@ func (w *wiring) opText(op *hOp) string {
 		if !op.HasChk {
 			sb.WriteString(" -")
 		} else {
-			fmt.Fprintf(&sb, " %d", len(op.Checker))
-			for _, f := range op.Checker {
+			chk := c04ModelChecker(w, op.Store, op.Checker) // + the fields written whatever the checker says
+			fmt.Fprintf(&sb, " %d", len(chk))
+			for _, f := range chk {
 				fmt.Fprintf(&sb, " %s", f)
 			}
 		}
@@ -737,7 +746,7 @@ func (h *harnessDb) execOp(ctx boltz.MutateContext, op *hOp) error {
 		var chk boltz.FieldChecker
 		if op.HasChk {
 			m := boltz.MapFieldChecker{}
-			for _, f := range op.Checker {
+			for _, f := range c04ImplChecker(h.w, op.Store, op.Checker) { // storage keys -> the names the checker knows
 				m[f] = struct{}{}
 			}
 			chk = m
